@@ -101,6 +101,10 @@ def rdOp : Rd (Option Op) := do
   | "nb" => return some .normalBuffer
   | "ab" => return some .altBuffer
   | "sz" => do let w ← Rd.int; let h ← Rd.int; return some (.setSize ⟨w, h⟩)
+  -- `wl n bytes`: `term << "text"` (a NUL-terminated C string converts to a string of default-attribute US-ASCII elements)
+  | "wl" => do
+      let n ← Rd.num; let bs ← rdBytes n
+      return some (.writeString ((bs.takeWhile (· ≠ 0)).map fun b => ({ glyph := { b0 := b, cs := Charset.default } } : Element)))
   | "wr" => do let n ← Rd.num; let bs ← rdBytes n; return some (.rawWrite bs)
   | "in" => do let n ← Rd.num; let bs ← rdBytes n; return some (.input bs)
   -- `cl` terminal.close(), `al` is_alive(), `ar` async_read(callback): nothing is written, nothing the output side knows changes
